@@ -285,7 +285,25 @@ pub fn c16cli(a: &Args) -> Report {
     let _ = std::fs::remove_dir_all(&work);
     std::fs::create_dir_all(&work).unwrap();
     let runs = if a.tier == vcore::enumerate::Tier::Thorough { 16 } else { 6 };
-    let defs: Vec<(String, vcore::spec::Spec)> = vcore::curated::curated().into_iter().filter(|(_, _, h)| !h).map(|(n, s, _)| (n.to_string(), s)).collect();
+    let mut defs: Vec<(String, vcore::spec::Spec)> = vcore::curated::curated().into_iter().filter(|(_, _, h)| !h).map(|(n, s, _)| (n.to_string(), s)).collect();
+    // pairs that share a pattern source but differ elsewhere (ignore(case), subpattern bodies)
+    defs.push(("kw_plain".into(), vcore::spec::Spec::new(true, vec![vcore::spec::Pat::regex("select|from|where"), vcore::spec::Pat::regex("[a-z]+").prio(1)])));
+    defs.push(("kw_icase".into(), vcore::spec::Spec::new(true, vec![vcore::spec::Pat::regex("select|from|where").icase(), vcore::spec::Pat::regex("[a-z]+").prio(1)])));
+    defs.push(("kw_sub1".into(), vcore::spec::Spec::new(true, vec![vcore::spec::Pat::regex("(?&d)+x")]).with_sub("d", "[0-9]")));
+    defs.push(("kw_sub2".into(), vcore::spec::Spec::new(true, vec![vcore::spec::Pat::regex("(?&d)+x")]).with_sub("d", "[0-7]")));
+    // in-process outputs, produced one after the other by THIS process (which therefore has a
+    // history), to be compared with the fresh-process outputs of the CLI
+    let in_process: Vec<Option<String>> = defs
+        .iter()
+        .map(|(_, spec)| {
+            let src = spec.render("T", "Logos, Debug");
+            let strip = expected_strip(&src)?;
+            let imp = vdrive::generate(&src, false).tokens?;
+            let mut want = strip;
+            want.extend(imp);
+            Some(norm(&want))
+        })
+        .collect();
     let results: Vec<Option<Violation>> = defs
         .par_iter()
         .enumerate()
@@ -293,6 +311,11 @@ pub fn c16cli(a: &Args) -> Report {
             let inp = work.join(format!("d{i}.rs"));
             std::fs::write(&inp, spec.render("T", "Logos, Debug")).unwrap();
             let first = run_cli(&cli, &[inp.to_str().unwrap()]);
+            if let (Some(want), Ok(got)) = (&in_process[i], first.1.parse::<proc_macro2::TokenStream>()) {
+                if norm(&got) != *want {
+                    return Some(Violation { key: format!("HISTORY-DEPENDENT/{name}"), tag: "HISTORY-DEPENDENT".into(), case: format!("{name} {}", spec.short()), detail: "a fresh logos-cli process and a long-lived process that expanded other definitions before produce different output for the same definition (state leaking between generate() calls)".into(), replay: json!({"kind": "c16cli", "tag": "HISTORY-DEPENDENT", "name": name}) });
+                }
+            }
             for _ in 1..runs {
                 let o = run_cli(&cli, &[inp.to_str().unwrap()]);
                 if o.1 != first.1 || o.0 != first.0 {
